@@ -128,6 +128,7 @@ public:
 
   static int self() { return tls_tid(); }
   int die_fd = 1;  // where DEADLOCK / STEPLIMIT reports go
+  size_t die_log_cap = 3000;
 
   // ---- scheduling point: returns the flag of the entry that picked this thread
   int point(const Pending &p)
@@ -323,7 +324,17 @@ private:
   }
   [[noreturn]] void flush_and_die(const char *why)
   {
-    std::string s = std::string(why) + " || " + log_line() + "\n";
+    // a run-away run (a call that never returns polls for ever) is reported with the first die_log_cap events: the
+    // acceptors are prefix-closed, and the verdict is the DEADLOCK / STEPLIMIT tag itself
+    std::string body;
+    size_t n = 0;
+    for (auto &e : log_)
+    {
+      if (n++ >= die_log_cap) break;
+      if (!body.empty()) body += " ; ";
+      body += e;
+    }
+    std::string s = std::string(why) + " || " + body + "\n";
     size_t off = 0;
     while (off < s.size())
     {
